@@ -5,6 +5,9 @@ usage: seed_matrix.py [--only-own] [--jobs N] [--checks C01,C02] [--seeds C01a,.
 import argparse, concurrent.futures as cf, glob, json, os, shutil, subprocess, sys, tempfile, time
 V = os.path.dirname(os.path.dirname(os.path.abspath(__file__)))
 
+def benign():
+    return [(os.path.basename(p)[:-5], p, None) for p in sorted(glob.glob(os.path.join(V, 'selftest', 'benign', '*.diff')))]
+
 def seeds():
     out = []
     for d in sorted(glob.glob(os.path.join(V, 'seeded', '*'))):
@@ -49,11 +52,12 @@ def main():
     ap = argparse.ArgumentParser()
     ap.add_argument('--only-own', action='store_true'); ap.add_argument('--jobs', type=int, default=6)
     ap.add_argument('--checks', default=','.join(f'C{i:02d}' for i in range(1, 21))); ap.add_argument('--seeds', default='')
+    ap.add_argument('--benign', action='store_true', help='run the behaviour-preserving refactors (selftest/benign): every check must stay silent')
     ap.add_argument('--retry-errors', action='store_true', help='only re-run cells whose recorded exit code is neither 0 nor 1')
     a = ap.parse_args()
     checks = a.checks.split(',')
-    ss = [s for s in seeds() if not a.seeds or s[0] in a.seeds.split(',')]
-    path = os.path.join(V, 'selftest', 'matrix.json')
+    ss = [s for s in (benign() if a.benign else seeds()) if not a.seeds or s[0] in a.seeds.split(',')]
+    path = os.path.join(V, 'selftest', 'benign_matrix.json' if a.benign else 'matrix.json')
     results = json.load(open(path)) if os.path.exists(path) else {}
     def todo(n):
         if not a.retry_errors: return checks
